@@ -16,7 +16,7 @@ From TV Require Import Base.Prelude Spec.Ordered Model.TomlValue Spec.Canonical.
 From TV Require Import Proofs.CanonicalBase Proofs.CanonicalEmit Proofs.CanonicalRead Proofs.CanonicalOrder Proofs.CanonicalTop.
 From Coq Require Import Permutation.
 
-(* Who hands the entries of the tables to the serializer (Proofs/CanonicalTop.v `writer`):
+(* Who hands the entries of the tables to the serializer (Spec/Canonical.v `writer`):
      WValue   toml::Value            — `impl Serialize for Value`, three loops at every level
      WTable   toml::Table at the root — map order there, Values below (Display for Table)
      WStruct  a derived struct, or any Serialize impl that keeps an order of its own, at every level
@@ -55,9 +55,10 @@ Print Assumptions C17_values_before_tables_struct.
    non-empty table without values), then sections strictly below it *)
 Theorem C17_table_shape : forall ml m t p a,
   fmt_item ml (ser_value (TTab m)) = ITbl t ->
-  flat_map visit_table (visit_nested t p a)
-  = own_section ml true true m p (kind_of p a) ++ rest_secs ml true true m p /\
-  Forall (fun s => strict_prefix p (s_path s)) (rest_secs ml true true m p).
+  exists rest,
+    flat_map visit_table (visit_nested t p a)
+    = (if own_visible (kind_of p a) m (own_lines ml true true m) then [mkSec p (kind_of p a) (own_lines ml true true m)] else []) ++ rest /\
+    Forall (fun s => strict_prefix p (s_path s)) rest.
 Proof. exact (fun ml => table_shape ml true). Qed.
 Print Assumptions C17_table_shape.
 
